@@ -62,6 +62,7 @@ type callRec struct {
 	startT   time.Time
 	endT     time.Time
 	updSeq   int // set: seq at which store.Update had certainly been executed (first yield point after it)
+	updated  bool // set: took the overwrite path (store.Update succeeded)
 	ok       bool
 	found    bool
 	got      uint64
@@ -84,6 +85,8 @@ type sched struct {
 	rejectCnt map[uint64]int
 	sweepEv   []sweepEvict
 	sw51, sw52 int
+	appKey     uint64               // hash of the item the applier is processing
+	applyT     map[uint64]time.Time // hash -> virtual time of the latest store.Set of a new item
 	inSweep   bool
 	failed    bool
 }
@@ -157,6 +160,12 @@ func (s *sched) point(id int) {
 	if (id == 1 || id == 2) && g.rec != nil && g.rec.updSeq == 0 {
 		g.rec.updSeq = s.seq
 	}
+	if id == 1 && g.rec != nil {
+		g.rec.updated = true
+	}
+	if id == 34 {
+		s.applyT[s.appKey] = time.Now()
+	}
 	s.events = append(s.events, event{g, fmt.Sprintf("at %s %d", g.name, id)})
 	if id == 44 { // the applier is about to return: never park a dying goroutine
 		g.at = 0
@@ -173,6 +182,11 @@ func (s *sched) point(id int) {
 
 func (s *sched) observe(id int, a, b uint64) {
 	g := s.lookup(id)
+	if id == 30 {
+		s.mu.Lock()
+		s.appKey = b
+		s.mu.Unlock()
+	}
 	s.record(g, fmt.Sprintf("obs %d %d %d", id, a, b))
 }
 
@@ -262,7 +276,7 @@ func runCacheCase(r *Run, mode string, seed int64, sample bool) {
 }
 
 func cacheCaseBody(r *Run, rng *rand.Rand, cfg cacheCfg, nClients int, sample bool) {
-	s := &sched{byGoid: map[uint64]*gor{}, r: r, exitSeq: map[uint64]int{}, exitCnt: map[uint64]int{},
+	s := &sched{byGoid: map[uint64]*gor{}, r: r, applyT: map[uint64]time.Time{}, exitSeq: map[uint64]int{}, exitCnt: map[uint64]int{},
 		evictCnt: map[uint64]int{}, rejectCnt: map[uint64]int{}}
 	ristretto.VerifPointFn = s.point
 	ristretto.VerifObserveFn = s.observe
@@ -682,6 +696,40 @@ func oracleQuiescent(r *Run, s *sched, cfg cacheCfg, cache *ristretto.Cache[uint
 			}
 		}
 	}
+	// C14 liveness: an entry whose expiry bucket has been swept must be gone — unless it was
+	// registered after that sweep (open finding F6: applied later than its expiration)
+	valCall := map[uint64]*callRec{}
+	for _, c := range calls {
+		if c.kind == "set" {
+			valCall[c.val] = c
+		}
+	}
+	for _, e := range sn.Store {
+		if e.Expiration.IsZero() {
+			continue
+		}
+		b := e.Expiration.Unix()/5 + 1
+		// registration bucket: storageBucket(exp), or — for an insert applied late — at most the
+		// bucket after the one that was current when it was applied
+		w := valCall[e.Value]
+		at := time.Time{}
+		if w != nil {
+			at = w.endT
+			if !w.updated {
+				if t, ok := s.applyT[e.Key]; ok {
+					at = t
+				}
+			}
+		}
+		if !at.IsZero() && at.Unix()/5+1 > b {
+			b = at.Unix()/5 + 1
+		}
+		if w == nil || b > sn.LastCleaned {
+			continue
+		}
+		r.Fail("C14", fmt.Sprintf("key %d (value %d) expired at %s, its expiry bucket (<= %d) has been swept (lastCleaned=%d) but the entry is still resident and charged",
+			e.Key, e.Value, e.Expiration.UTC().Format("15:04:05.000"), b, sn.LastCleaned), in)
+	}
 	// C17: conservation laws (no Clear in this history)
 	if m := cache.Metrics; m != nil && !clearSeen {
 		ngets := 0
@@ -860,6 +908,18 @@ func oracleFinal(r *Run, s *sched, cfg cacheCfg, cache *ristretto.Cache[uint64, 
 					}
 				}
 				for _, g := range cs {
+					// C05 quantifies over concurrent activity on OTHER keys: a Clear/Close that overlaps
+					// the window acts on k itself (it may drop the tombstone and release the Wait before
+					// it reaches k's shard) and is outside the property
+					overl := false
+					for _, cc := range calls {
+						if (cc.kind == "clear" || cc.kind == "close") && cc.startSeq < g.endSeq && (cc.endSeq == 0 || cc.endSeq > d.startSeq) {
+							overl = true
+						}
+					}
+					if overl {
+						continue
+					}
 					if g.kind == "get" && g.startSeq > w.endSeq && g.endSeq != 0 && g.endSeq < next && g.found {
 						r.Fail("C05", fmt.Sprintf("Get(%d) found %d after Del;Wait with no Set in between", k, g.got), in)
 					}
